@@ -28,6 +28,113 @@ DATA_WITH_ARGS = {'Pair', 'Left', 'Right', 'Some', 'Lambda_rec', 'Ticket'}
 NOT_ARGUMENTS = {'parameter', 'storage', 'code', 'view'}  # top-level sections only
 
 
+class SeqVal(list):
+    """The parser's marker for an explicit `{ ... }` sequence (repo class Sequence(list)): a list subclass, so that exact type tests
+    (`type(x) is list`) and isinstance tests behave as they do at run time."""
+
+
+class _ParseHooks(Hooks):
+    def inline(self, it, fi):
+        return fi.name.startswith('p_')
+
+    def call(self, it, callee, args, kwargs, node):
+        from ..absint import ClassRef
+        if isinstance(callee, ClassRef) and callee.qual.endswith('.parse.Sequence'):
+            return SeqVal(args[0] if args else [])
+        return NotImplemented
+
+
+def _shape(v: Any) -> Any:
+    if isinstance(v, SeqVal):
+        return ('Seq',) + tuple(_shape(x) for x in v)
+    if isinstance(v, list):
+        return ('list',) + tuple(_shape(x) for x in v)
+    if isinstance(v, dict):
+        return v.get('prim') or v.get('int')
+    return repr(v)
+
+
+def _run_prod(repo: Repo, m, pv: List[Any]):
+    """Interpret a production function on the yacc slice `pv` and return p[0] as the path value."""
+    import copy
+    from ..absint import FuncRef
+
+    def go(it):
+        p = copy.deepcopy(pv)
+        it.call_function(FuncRef(m, Sym('self'), True), [p], {}, None, force_inline=True)
+        return p[0]
+
+    return Interp(repo, _ParseHooks(), max_depth=1).run_paths(go)
+
+
+def _p0(res) -> Any:
+    return res[0].value
+
+
+def _nesting_clause(repo: Repo, chk: Check, par) -> None:
+    """The productions that build sequences keep the nesting level of an explicit inner `{ ... }` (a Sequence), flatten only the plain
+    accumulator list of `a ; b`, and wrap a single expression - decided by interpreting the production functions on the four kinds of
+    right-hand-side values."""
+    a, b, c = {'prim': 'A'}, {'prim': 'B'}, {'prim': 'C'}
+    flat, inner, single, empty = [a, b], SeqVal([a]), c, None
+    cases = {
+        'p_arg_subseq': lambda x: [None, '{', x, '}'],
+        'p_instr_subseq': lambda x: [None, '{', x, '}'],
+    }
+    want = {
+        # arg : { instr } -> the argument list of items; an explicit inner sequence stays ONE item
+        ('p_arg_subseq', 'flat'): ('list', 'A', 'B'), ('p_arg_subseq', 'inner'): ('list', ('Seq', 'A')), ('p_arg_subseq', 'single'): ('list', 'C'),
+        ('p_arg_subseq', 'empty'): ('list',),
+        # instr : { instr } -> an explicit sequence
+        ('p_instr_subseq', 'flat'): ('Seq', 'A', 'B'), ('p_instr_subseq', 'inner'): ('Seq', ('Seq', 'A')), ('p_instr_subseq', 'single'): ('Seq', 'C'),
+        ('p_instr_subseq', 'empty'): ('Seq',),
+    }
+    vals = {'flat': flat, 'inner': inner, 'single': single, 'empty': empty}
+    n = 0
+    for mname, mk in cases.items():
+        m = par.methods.get(mname)
+        if m is None:
+            raise AnalysisError(f'parser production {mname} not found')
+        for kind, x in vals.items():
+            n += 1
+            import copy
+            pv = mk(copy.deepcopy(x))
+            res = _run_prod(repo, m, pv)
+            got = _shape(_p0(res)) if len(res) == 1 and res[0].outcome == 'return' else ('?', [p.outcome for p in res])
+            chk.ob('R-TEMPLATE', m.qualname, got == want[(mname, kind)], f'{mname} on a {kind} right-hand side keeps the nesting', m.loc,
+                   {'built': str(got), 'reference': str(want[(mname, kind)])},
+                   what=f'{mname}: for a {kind} `instr` value the production builds {got}, the Micheline of the text is {want[(mname, kind)]} '
+                        f'(an explicit inner {{ ... }} must stay one nested element; only the plain `a ; b` accumulator is spliced)')
+    # instr : instr SEMI instr and args : args arg
+    m = par.methods.get('p_instr_list')
+    for (k1, x), (k2, y) in [(('flat', flat), ('single', single)), (('inner', inner), ('single', single)), (('single', single), ('inner', inner)),
+                             (('inner', inner), ('inner', SeqVal([b]))), (('empty', None), ('single', single))]:
+        n += 1
+        import copy
+        pv = [None, copy.deepcopy(x), ';', copy.deepcopy(y)]
+        res = _run_prod(repo, m, pv)
+        exp: List[Any] = []
+        for v in (x, y):
+            if type(v) is list:
+                exp.extend(v)
+            elif v is not None:
+                exp.append(v)
+        got = _shape(_p0(res)) if len(res) == 1 and res[0].outcome == 'return' else ('?',)
+        chk.ob('R-TEMPLATE', m.qualname, got == _shape(exp), f'p_instr_list on {k1} ; {k2} splices plain lists only', m.loc, {'built': str(got), 'reference': str(_shape(exp))},
+               what=f'p_instr_list: `{k1} ; {k2}` builds {got}, expected {_shape(exp)} (explicit sequences are single items of the enclosing sequence)')
+    m = par.methods.get('p_args_list')
+    for k2, y in (('inner', inner), ('flat list argument', flat), ('single', single)):
+        n += 1
+        import copy
+        pv = [None, [b], copy.deepcopy(y)]
+        res = _run_prod(repo, m, pv)
+        got = _shape(_p0(res)) if len(res) == 1 and res[0].outcome == 'return' else ('?',)
+        exp2 = [b, y]
+        chk.ob('R-TEMPLATE', m.qualname, got == _shape(exp2), f'p_args_list appends a {k2} argument as ONE argument', m.loc, {'built': str(got), 'reference': str(_shape(exp2))},
+               what=f'p_args_list: an argument that is a {k2} is not appended as a single argument: {got}')
+    chk.minimum('sequence-building production cases', n, 16)
+
+
 def run(repo: Repo, chk: Check) -> None:
     chk.explanation = (
         'is_framed is evaluated for every primitive of the tag table that can occur as an argument, with and without arguments / '
@@ -168,3 +275,6 @@ def run(repo: Repo, chk: Check) -> None:
     missing = sorted(need - prods)
     chk.ob('R-TABLE', par.qualname, not missing, 'grammar productions for every construct the formatter emits', par.loc,
            {'productions': len(prods), 'missing': missing}, what=f'grammar lacks {missing}: text printed by the formatter cannot be parsed')
+    # ---- 4 nesting kept by the sequence-building productions ----------------------------------------------------------------------
+    chk.set_clause('C18.4')
+    _nesting_clause(repo, chk, par)
